@@ -198,7 +198,7 @@ def run(ctx):
                 guarded = False
                 p = getattr(a, "_parent", None)
                 while p is not None and p is not loop:
-                    if isinstance(p, ast.If) and norm(p.test) == "startup_time is None" and a in list(ast.walk(ast.Module(body=p.body, type_ignores=[]))):
+                    if isinstance(p, ast.If) and norm(p.test) in ("startup_time is None", "not startup_time", "startup_time == None", "None is startup_time") and a in list(ast.walk(ast.Module(body=p.body, type_ignores=[]))):
                         guarded = True
                     p = getattr(p, "_parent", None)
                 ctx.check(guarded, "R06.9", uid, f"`{short(a)}` inside the wait loop only fills an unset start-up time",
